@@ -32,7 +32,7 @@ META = {
     "technique": "Lean 4 proof over a regenerated dispatch table + differential correspondence + mutation-based exploration "
                  "of all parser entry points in watchdog-supervised child processes",
 }
-REQUIRED = ["dispatch_total_iff", "dispatch_total_partial", "dispatch_total_partial_current", "current_verdict",
+REQUIRED = ["dispatch_total", "dispatch_total_iff", "dispatch_total_partial", "dispatch_total_partial_current", "current_verdict",
             "cfgCurrent_checked", "detect_known_ext", "detect_unknown_iff", "dispatch_witness_pinned",
             "dispatch_total_false_pinned", "dispatch_panic_characterisation", "dispatch_total_repaired"]
 
@@ -798,6 +798,29 @@ class Gen:
                                            ("x64-text", b".intel_syntax noprefix\n.section .text\n.globl f\nf:\n\t", b"\n\tret\n")):
                     c = pre + d + b" " + o + post
                     self.add("grid", "asm", OWN_NAME["asm"], hexs(c), len(c), asm_eps, "asm grid %s: %s %s" % (ctxname, d.decode(), o.decode()))
+        # ---- literal / comment edges: every opener x every tail at end of input (unterminated, CR, NUL, backslash)
+        openers = [b"/*", b"/**", b"/* a *", b"//", b"// a", b"#", b"#wa:build", b'"', b'"a', b'"\\', b"`", b"`a", b"'", b"'a", b"'\\", b"(;", b"(; a ;",
+                   b";;", b"0x", b"1e", b"1.", b"0b", b"'\\u12", b'"\\x', "注:".encode(), "“".encode()]
+        tails = [b"", b"\r", b"\n", b"\r\n", b"*", b"*\r", b"*\r\n", b"\\", b"\\\r", b"\x00", b"\r\r", b"*/\r", b"\r*", b"/", b"\xff", b"\xef\xbb\xbf"]
+        edge_eps = ["syntax", "format", "parsewa", "parsewz", "checkwa", "wat", "nasm_la", "nasm_x64", "nasm_arm"]
+        for o in openers:
+            for t in tails:
+                for pre in (b"", b"func main() {}\n", b"x := "):
+                    c = pre + o + t
+                    self.add("grid", "wa", self.rng.choice([b"c08.wa", b"c08.wz", b"c08.txt", b"c08.wat", b"c08.wa.s"]), hexs(c), len(c), edge_eps,
+                             "literal edge grid: %r + %r" % (o, t))
+        # ---- recursive type declarations: every type constructor referring to itself / a cycle x every kind of use
+        tdecls = [b"type T [2]T", b"type T :[2]T", b"type T []T", b"type T *T", b"type T map[T]int", b"type T map[int]T", b"type T func(a: T) => T",
+                  b"type T :struct { a: T }", b"type T :struct { a: [2]T }", b"type T :struct { a: *T; b: []T }", b"type T :interface { F() => T }",
+                  b"type T [len(T{})]int", b"type T U\ntype U T", b"type T [2]U\ntype U :struct { a: T }", b"type T :struct { a: U }\ntype U [1]T",
+                  b"type T map[U]int\ntype U [2]T", b"type T func(a: [2]T)", b"type T [2][2]T", b"type T :struct { T }", b"type T T"]
+        tuses = [b"", b"global m: map[T]int", b"global v: T", b"global v: [3]T", b"func f(x: T) => T { return x }", b"const c = unsafe.Sizeof(T{})",
+                 b"func g() { v: T; _ = v == v }", b"global p: *T = nil", b"func h() { m := make(map[T]int); _ = m }", b"global s: []T = []T{}"]
+        for k, td in enumerate(tdecls):
+            for j, tu in enumerate(tuses):
+                c = td + b"\n" + tu + b"\nfunc main() {}\n"
+                self.add("grid", "wa", OWN_NAME["wa"], hexs(c), len(c), ["parsewa", "checkwa", "format"] + (["loadwa"] if (k + j) % 4 == 0 else []),
+                         "recursive type grid: %s / %s" % (td.decode().replace("\n", "; "), tu.decode()))
         # ---- directives on declarations (Wa and Wz)
         args = [b"", b"x", b"F2", b"T.F2", b"+ F2", b"+", b"== F2 F3", b"1", b'"a"', b"a b c d", b"wasm", b"!", b"ignore", b"env f",
                 b"F2 F2", b"F", b"main", b"_", b"a/b", "忽略".encode(), b"8", b"-1", b"x " * 50]
@@ -1165,7 +1188,15 @@ def timeout_key(rec, size):
 
 
 def record_key(rec, size):
-    return timeout_key(rec, size) if rec[2] == "timeout" else key_of(rec)
+    if rec[2] == "timeout":
+        return timeout_key(rec, size)
+    k = key_of(rec)
+    if k.startswith(("fatal:stack-overflow:", "fatal:out-of-memory:")):
+        # size class of the input: running out of stack on a tiny input is unbounded recursion, on a 5 MB input
+        # it is the missing nesting limit
+        cls = "hang" if size <= 1024 else ("blowup" if size <= 65536 else "slow")
+        k = k.replace("fatal:stack-overflow:", "fatal:stack-overflow:%s:" % cls).replace("fatal:out-of-memory:", "fatal:out-of-memory:%s:" % cls)
+    return k
 
 
 def fold_timeouts(recs):
@@ -1474,7 +1505,7 @@ def run(ctx):
         "dispatch": dstats,
         "dispatch_tables": cfg,
         "scaling_top": scaling[:15],
-        "time_limit": "CPU time of the child process during the call: 2 s + 100 ms/KiB, at most 60 s (LoadProgramFile: 8 s + 200 ms/KiB, at most 240 s); wall-clock fallback 100x; memory: RLIMIT_AS %d GiB, GOMEMLIMIT %s" % (MEM_LIMIT >> 30, GOMEMLIMIT),
+        "time_limit": "CPU time of the child process during the call: 2 s + 100 ms/KiB, at most 60 s (LoadProgramFile: 8 s + 200 ms/KiB, at most 240 s); wall-clock fallback 100x; goroutine stack: 16 MB for inputs up to 2 KiB, Go's default 1 GB above; memory: RLIMIT_AS %d GiB, GOMEMLIMIT %s" % (MEM_LIMIT >> 30, GOMEMLIMIT),
         "timing": timing,
         "seeds": {k: len(v) for k, v in seeds.by_lang.items()},
     }
